@@ -31,6 +31,23 @@ EscAssign(t, run, tgt, done) ==    \* done: the first ";" of a target-specific v
   ELSE IF Head(t) = "#" THEN [k \in 1..(2 * run + 1) |-> QBSL] \o <<"#">> \o EscAssign(Tail(t), 0, tgt, done)
   ELSE IF tgt /\ Head(t) = ";" THEN [k \in 1..(2 * run) |-> QBSL] \o <<";">> \o EscAssign(Tail(t), 0, tgt, TRUE)
   ELSE [k \in 1..run |-> QBSL] \o <<Head(t)>> \o EscAssign(Tail(t), 0, tgt, done)
+\* make/syntax.py escape_str for Syntax.target (dep = FALSE) / Syntax.dependency (dep = TRUE):
+\* "$" doubled; before a glob character, blank, TAB, "#", "%", ":" (and "|" in prerequisites, "~" as
+\* the first character) the preceding run of backslashes is doubled and one more backslash added
+Bsl(n) == [k \in 1..n |-> QBSL]
+PathSpecial(c, dep) == c \in {"?", "*", "[", "]", " ", "TAB", "#", "%", ":"} \/ (dep /\ c = "|")
+RECURSIVE MkEscPathR(_, _, _, _)
+MkEscPathR(t, run, dep, first) ==
+  IF t = <<>> THEN Bsl(run)
+  ELSE IF Head(t) = QBSL THEN MkEscPathR(Tail(t), run + 1, dep, FALSE)
+  ELSE IF PathSpecial(Head(t), dep) \/ (first /\ Head(t) = "~")
+         THEN Bsl(2 * run + 1) \o <<Head(t)>> \o MkEscPathR(Tail(t), 0, dep, FALSE)
+  ELSE Bsl(run) \o (IF Head(t) = "$" THEN <<"$", "$">> ELSE <<Head(t)>>) \o MkEscPathR(Tail(t), 0, dep, FALSE)
+MkEscPath(t, dep) == MkEscPathR(t, 0, dep, TRUE)
+\* ninja/syntax.py escape_str for Syntax.output / input: "$" before ":", "$" and blank
+RECURSIVE NjEscPath(_)
+NjEscPath(t) == IF t = <<>> THEN <<>> ELSE
+   (IF Head(t) \in {":", "$", " "} THEN <<"$", Head(t)>> ELSE <<Head(t)>>) \o NjEscPath(Tail(t))
 \* ninja/syntax.py escape_str for Syntax.shell / clean: "$" -> "$$"
 RECURSIVE NjEsc(_)
 NjEsc(t) == IF t = <<>> THEN <<>> ELSE (IF Head(t) = "$" THEN <<"$", "$">> ELSE <<Head(t)>>) \o NjEsc(Tail(t))
